@@ -2,6 +2,9 @@
 EXTENDS Call, Json
 NoTrees == {}
 NoPaths(t) == {}
+SetSeq(S) == LET f[T \in SUBSET S] == IF T = {} THEN <<>> ELSE LET x == CHOOSE x \in T : TRUE IN <<x>> \o f[T \ {x}] IN f[S]
 Export == cfg # <<>> => PrintT(ToJson([node |-> call.node, method |-> call.method, name |-> call.name, wire |-> ClientWire(call),
-                                        status |-> SuccessStatus(call), cfg |-> cfg]))
+                                        status |-> SuccessStatus(call), cfg |-> cfg,
+                                        req |-> LET e == RequestEnvelope(call) IN [kinds |-> SetSeq(e.kinds), required |-> SetSeq(e.required), allowed |-> SetSeq(e.allowed)],
+                                        resp |-> LET e == ResponseEnvelope(call) IN [kinds |-> SetSeq(e.kinds), required |-> SetSeq(e.required), allowed |-> SetSeq(e.allowed)]]))
 =============================================================================
